@@ -247,6 +247,8 @@ class FieldData:
             self._add_reference(ref, k)
             self._update_backreference_in(ref, previous, k)
         self._merge_placeholder_links()
+        previous._refs = {}
+        previous._gfa = None
       self._gfa._register_line(self)
 
   def _merge_placeholder_links(self):
